@@ -29,6 +29,7 @@ type Term struct {
 	Fn   *ssa.Function
 	Note string
 	Tbl  map[int64]int64 // Kind index: the constant table being indexed (absent entries are zero)
+	Idx  int             // Kind call: which result of the callee
 }
 
 func (t *Term) String() string {
@@ -216,11 +217,22 @@ func (tx *tableEx) inlinable(fn *ssa.Function) bool {
 }
 
 func inlinableFn(fn *ssa.Function, depth int) bool {
-	if fn == nil || fn.Blocks == nil || fnPkgPath(fn) != pkgExec || len(fn.Blocks) > 8 || depth > 3 {
+	if fn == nil || fn.Blocks == nil || (fnPkgPath(fn) != pkgExec && fnPkgPath(fn) != pkgParser) || depth > 3 {
 		return false
 	}
-	if fn.Signature.Results().Len() != 1 {
+	if fnPkgPath(fn) == pkgExec && (len(fn.Blocks) > 8 || fn.Signature.Results().Len() != 1) {
 		return false
+	}
+	// package parser: plain functions over characters (`operatorToken(ch, next)`)
+	if fnPkgPath(fn) == pkgParser && (len(fn.Blocks) > 40 || fn.Signature.Recv() != nil || fn.Signature.Results().Len() == 0 || len(fn.Params) == 0) {
+		return false
+	}
+	for i := 0; i < fn.Signature.Results().Len(); i++ {
+		if u, ok := fn.Signature.Results().At(i).Type().Underlying().(*types.Basic); !ok || (u.Kind() != types.Bool && u.Info()&types.IsInteger == 0) {
+			if fnPkgPath(fn) == pkgParser {
+				return false
+			}
+		}
 	}
 	// every parameter must be of a finite-domain type
 	for _, q := range fn.Params {
@@ -235,8 +247,8 @@ func inlinableFn(fn *ssa.Function, depth int) bool {
 	}
 	for _, b := range fn.Blocks {
 		for _, s := range b.Succs {
-			if s.Index <= b.Index {
-				return false
+			if s.Dominates(b) {
+				return false // a loop
 			}
 		}
 		for _, ins := range b.Instrs {
@@ -494,7 +506,7 @@ func (tx *tableEx) callTerm(c *ssa.Call, idx int, v ssa.Value, row *PathRow, dep
 	}
 	callee := c.Call.StaticCallee()
 	if tx.inlinable(callee) {
-		t := &Term{Kind: "call", Fn: callee}
+		t := &Term{Kind: "call", Fn: callee, Idx: idx}
 		for _, a := range c.Call.Args {
 			t.Sub = append(t.Sub, tx.term(a, row, depth+1))
 		}
@@ -518,6 +530,32 @@ func (tx *tableEx) callTerm(c *ssa.Call, idx int, v ssa.Value, row *PathRow, dep
 		return t
 	}
 	return &Term{Kind: "opaque", Note: "call " + calleeName(&c.Call)}
+}
+
+type subTab struct {
+	tx   *tableEx
+	rows []*PathRow
+}
+
+var subTables = map[*ssa.Function]*subTab{}
+
+// subTable: the table of an inlinable callee (memoised). Its integer
+// parameters are atoms whatever their type: they are always assigned from the
+// evaluated arguments.
+func (p *Prog) subTable(fn *ssa.Function) (*tableEx, []*PathRow) {
+	if st, ok := subTables[fn]; ok {
+		return st.tx, st.rows
+	}
+	tx, rows := p.extractTable(fn, nil, &TableCfg{IntDomain: func(v ssa.Value) []int64 {
+		if q, ok := v.(*ssa.Parameter); ok {
+			if b, ok := q.Type().Underlying().(*types.Basic); ok && b.Info()&types.IsInteger != 0 {
+				return []int64{0}
+			}
+		}
+		return nil
+	}})
+	subTables[fn] = &subTab{tx, rows}
+	return tx, rows
 }
 
 // --- evaluation under an assignment ------------------------------------------------
@@ -635,7 +673,7 @@ func (tx *tableEx) eval(t *Term, as Assign, depth int) Val {
 	case "call":
 		// expand the callee's own table with its parameters bound to the
 		// evaluated arguments
-		sub, rows := tx.p.extractTable(t.Fn, nil, &TableCfg{})
+		sub, rows := tx.p.subTable(t.Fn)
 		as2 := Assign{}
 		var argv []Val
 		for _, s := range t.Sub {
@@ -662,8 +700,8 @@ func (tx *tableEx) eval(t *Term, as Assign, depth int) Val {
 					break
 				}
 			}
-			if ok {
-				return sub.eval(r.Out[0], as2, depth+1)
+			if ok && t.Idx < len(r.Out) {
+				return sub.eval(r.Out[t.Idx], as2, depth+1)
 			}
 		}
 		return Val{Kind: "bad"}
